@@ -93,6 +93,14 @@ RARE = [
     ("pragma-with-text-in-parameter-list(fails)", "void f(int a,\n#pragma in params\nint b);"),
     ("pragma-without-text-in-expression(fails)", "int y = 1 +\n#pragma\n2;"),
 ]
+# Operations that are expensive to run (explored to depth 2 with everything
+# else, not deeper): a parse that ends in a NON-ParseError exception - deep
+# nesting beyond the interpreter's recursion limit (3000 in every process of
+# the harness; about 8 frames per level, 372 levels still parse) - after
+# typedefs and objects were declared
+HEAVY = [
+    ("recursion-error-after-typedef-and-object", "typedef int T; int v; void f(void){ int y = " + "(" * 640 + "1" + ")" * 640 + "; }"),
+]
 FILENAMES = ["a.c", "dir/b.h"]
 # the depth-4 alphabet: one program per way of leaving state behind
 LEAN = ("declares-typedef", "declares-variable-of-same-name", "probes-name-implicit-int",
@@ -322,6 +330,7 @@ GEN_SOURCES = {
     "funcs": "int g(void){ return 1; }\nint h(a, b) int a; char b; { return a + b; }\nstatic void k(void){}",
     "stmts": "int m(int x){ switch (x) { case 1: x++; break; case 2: { x--; } default: ; } for (;;) { if (x) continue; else break; } do x++; while (x); L: return x; }",
 }
+GEN_SOURCES["local"] = "void f(int a){ struct L { int x; union { char c; } u; } l; if (a) { enum { P, Q } e; struct M { int m; } mm; } }"
 GEN_ASTS = [
     ("file:nested-compounds", "nested", ""),
     ("file:struct-enum-bodies", "bodies", ""),
@@ -335,6 +344,16 @@ GEN_ASTS = [
     ("bare:FuncDef-K&R", "funcs", "ext[1]"),
     ("bare:Switch", "stmts", "ext[0].body.block_items[0]"),
     ("bare:If-inside-For", "stmts", "ext[0].body.block_items[1].stmt.block_items[0]"),
+    # struct / union / enum bodies defined INSIDE a function body, visited as
+    # part of the file, of the function, of the enclosing statement, and
+    # directly - in every order (sequences), so that one definition node is
+    # reached at different indentation levels by one generator
+    ("file:local-bodies", "local", ""),
+    ("bare:FuncDef-with-local-bodies", "local", "ext[0]"),
+    ("bare:local-Decl-with-struct-body", "local", "ext[0].body.block_items[0]"),
+    ("bare:local-Struct", "local", "ext[0].body.block_items[0].type.type"),
+    ("bare:If-around-local-enum-and-struct", "local", "ext[0].body.block_items[1]"),
+    ("bare:nested-Decl-with-enum-body", "local", "ext[0].body.block_items[1].iftrue.block_items[0]"),
 ]
 
 
@@ -456,7 +475,13 @@ def parser_ops(variant="real"):
     if variant == "control":
         return [o for o in ops if o["what"] in CONTROL_PROGRAMS]
     ops += [{"what": w, "text": t, "filename": FILENAMES[k % 2]} for k, (w, t) in enumerate(RARE)]
+    ops += [{"what": w, "text": t, "filename": FILENAMES[k % 2]} for k, (w, t) in enumerate(HEAVY)]
     return ops
+
+
+def heavy_indices():
+    n = len(PROGRAMS) * len(FILENAMES) + len(RARE)
+    return list(range(n, n + len(HEAVY)))
 
 
 def core_indices():
@@ -551,9 +576,14 @@ def run(tier):
     core_idx, lean_idx = core_indices(), lean_indices()
     d_all, d_core, d_lean = (2, 3, 3) if quick else (3, 3, 4)
     depth = d_lean
-    r = hist.explore(PREF, d_all, base[PREF], plen=min(2, d_all))
-    parts = [("all", NP, d_all, 1)]
+    heavy = set(heavy_indices())
+    light_idx = [i for i in range(NP) if i not in heavy]
+    # everything (with the expensive operations) to depth 2
+    r = hist.explore(PREF, 2, base[PREF], plen=2)
+    parts = [("all", NP, 2, 1)]
     extra = []
+    if d_all > 2:
+        extra.append(("all-but-expensive", light_idx, d_all, 3))
     if d_core > d_all:
         extra.append(("core", core_idx, d_core, d_all + 1))
     if d_lean > max(d_all, d_core):
@@ -590,7 +620,9 @@ def run(tier):
     if r["histories"] != expected_histories:
         R.fail("harness:parser-histories-missing", {"part": "parser"}, str(r["histories"]))
     # distinct expected results: every (program, file name) except the empty text
-    if r["expected_distinct"] < NP * 3 // 4 or len(r["states"]) < 8 or len(r["outcome_kinds"]) < 2:
+    # (the number of distinct object states is evidence, not a guard: it
+    # depends on how the tree under test cleans up)
+    if r["expected_distinct"] < NP * 3 // 4 or len(r["outcome_kinds"]) < 2:
         R.fail("harness:parser-part-vacuous", {"part": "parser"},
                f"distinct expected={r['expected_distinct']} states={len(r['states'])}")
     samples += [[pops[i]["what"] + "@" + pops[i]["filename"] for i in h]
@@ -606,7 +638,7 @@ def run(tier):
             d[k] += d2[k]
         d["states"] |= d2["states"]
         d["fails"] += d2["fails"]
-    lf, lap = hist.long_histories(DREF, base[DREF], long_rotations(NP, 2))
+    lf, lap = hist.long_histories(DREF, base[DREF], long_rotations(NP, 2))  # incl. the expensive operation
     R.fail_many(lf)
     R.fail_many(d["fails"])
     states |= {"P" + s for s in d["states"]}
@@ -655,14 +687,15 @@ def run(tier):
     # run all of them, so class-level state shared between generator classes
     # shows as a difference from the pristine baseline of the class
     for rp in GVARIANTS:
-        g = hist.explore(GREF[rp], gdepth, base[GREF[rp]], plen=2,
+        # the subclass variants stay at depth 3 in both tiers
+        g = hist.explore(GREF[rp], gdepth if rp in (0, 1) else 3, base[GREF[rp]], plen=2,
                          others=[(GREF[o], base[GREF[o]]) for o in GVARIANTS if o != rp])
         R.fail_many(g["fails"])
         gen_hist += g["histories"]
         transitions += g["applied"]
         traces += g["histories"]
         gen_states |= g["states"]
-        if ng < 8 or g["expected_distinct"] < ng or g["outcome_kinds"].get("text", 0) != g["histories"] \
+        if ng < 8 or g["expected_distinct"] < ng - 1 or g["outcome_kinds"].get("text", 0) != g["histories"] \
                 or any(base[GREF[rp]][i][0] != "text" for i in range(ng)):
             R.fail("harness:generator-part-vacuous", {"part": "generator"},
                    f"ops={ng} distinct texts={g['expected_distinct']} kinds={g['outcome_kinds']}")
